@@ -20,7 +20,7 @@ ASSUMPTIONS = [
     "atoms are attributed to tokens through the node attribute stochastic_node and the reference node numbering of C17",
     "draw menu of two quantiles per Schulz-Zimm draw; an execution needing more than 20 s counts as non-terminating",
 ]
-BOUNDS = {"quick": "12 molecules, <= 3000 executions each", "thorough": "30 molecules, <= 40000 executions each"}
+BOUNDS = {"quick": "15 molecules + 4 token topologies x 5 roles, <= 3000 executions each", "thorough": "30 molecules, <= 40000 executions each"}
 CASE_TIMEOUT = {"quick": 600, "thorough": 3000}
 MAX_EXEC = {"quick": 3000, "thorough": 40000}
 
@@ -49,6 +49,19 @@ def molecules(tier):
         ("two-bond-orders-on-one-atom", {"elements": [S("[]", ["[<]CC(=[$])[>]"], ["[>]Br", "[<]I", "[$]=O"], "[]", sz(70, 60))], "mixture": None}),
         ("multiatom-prefix", {"elements": [T("CCO"), S("[>]", ["[<]CC[>]"], [], "[<]", sz(60, 50)), T("C(F)F")], "mixture": None}),
     ]
+    # token topology x role: every role (end group, prefix, suffix, connector, repeat unit) with a ring, an aromatic ring,
+    # a branched, an unsaturated and a fused-ring token (the others stay simple)
+    topo = {"ring": "C1CCCCC1", "aromatic": "c1ccccc1", "branched": "C(C)(C)CO", "unsaturated": "C(C#N)=C", "fused": "C1CCC2CCCCC2C1"}
+    if tier != "thorough":
+        topo.pop("fused")
+    for tn, body in topo.items():
+        out += [
+            (f"endgroup-{tn}", {"elements": [S("[]", ["[<]CO[>]"], ["[>]" + body, "[<]F"], "[]", sz(60, 50))], "mixture": None}),
+            (f"prefix-{tn}", {"elements": [T(body), S("[>]", ["[<]CO[>]"], [], "[<]", sz(60, 50)), T("F")], "mixture": None}),
+            (f"suffix-{tn}", {"elements": [T("N"), S("[>]", ["[<]CO[>]"], [], "[<]", sz(60, 50)), T(body)], "mixture": None}),
+            (f"connector-{tn}", {"elements": [T("N"), S("[>]", ["[<]CO[>]"], [], "[<]", sz(40, 35)), T(body), S("[>]", ["[<]CS[>]"], [], "[<]", sz(50, 45)), T("F")], "mixture": None}),
+            (f"unit-{tn}", {"elements": [T("N"), S("[>]", ["[<]C([>])" + body], ["[<]Cl"], "[<]", sz(2 * 90, 150)), T("F")], "mixture": None}),
+        ]
     if tier == "thorough":
         out += [
             ("graft", {"elements": [T("N"), S("[>]", ["[<]CC(C[<|0|])[>]"], ["[>]Br"], "[<]", sz(70, 60)), T("O")], "mixture": None}),
